@@ -1,5 +1,6 @@
 (* C16 -- a hostile or broken peer cannot crash, stall or pollute a socket.  Statements only. *)
 From MV Require Import Lib.Bytes Model.Hops Model.Wire Proofs.WireProofs Proofs.HopsProofs.
+From MV Require Import Model.Handshaker Proofs.HandshakerProofs.
 Open Scope N_scope.
 
 (* for ALL byte strings: the stream reader never indexes out of range and never runs out of fuel *)
@@ -51,3 +52,11 @@ Example C16_ex :
   delivered (parse_stream std_pool false 1048576 (unhex "0000000000000002aabb00000000")) = [unhex "aabb"] /\
   status (parse_stream std_pool false 1048576 (unhex "0000000000000002aabb00000000")) = Truncated.
 Proof. vm_compute. auto. Qed.
+
+(* ---- a peer that never completes its handshake does not delay the others (Model/Handshaker.v): whatever is stalled
+   in the work queue, a handshake that completes is the very next thing Wait returns ---- *)
+Theorem C16_stalled_handshake_delays_nobody : forall s c, h_closed s = false -> h_done s = [] -> nmem c (h_work s) = true ->
+  snd (hstep (fst (hstep s (HFinish c true))) HWait) = WPipe c /\
+  snd (hstep (fst (hstep s (HFinish c false))) HWait) = WFail.
+Proof. exact stalled_peers_do_not_delay. Qed.
+Print Assumptions C16_stalled_handshake_delays_nobody.
